@@ -738,6 +738,48 @@ def run(chk):
     import rules.C13 as c13
     c13.run(core.Only(chk, {"C13.ijk"}))
 
+    # ---- C10.startvec: the START record of an ESMRY file, written and read
+    r_sv = chk.rule("C10.startvec", "ESMRY START record = (day, month, year, hour, minute, second, millisecond), seven entries: the direct writer (ExtSmryOutput) fills all seven from the time stamp in this order, the converter (ESmry::make_esmry_file) turns the SMSPEC microsecond entry into second and appended millisecond, and the reader (ExtESmry make_date) takes hour, minute and second from entries 3, 4, 5 as they stand exactly when the record has seven entries - the same count the writers produce", floor=3)
+    sx = chk.facts(["opm/io/eclipse/ExtSmryOutput.cpp", "opm/io/eclipse/ExtESmry.cpp", "opm/io/eclipse/ESmry.cpp"])
+    wr = [f for f in sx.fns if f["q"] == "Opm::EclIO::ExtSmryOutput::ExtSmryOutput" and f.get("body")]
+    rdm = [f for f in sx.fns if f["n"] == "make_date" and f["file"].endswith("ExtESmry.cpp") and f.get("body")]
+    cvf = [f for f in sx.fns if f["n"] == "make_esmry_file" and f["file"].endswith("ESmry.cpp") and f.get("body")]
+    if len(wr) != 1 or len(rdm) != 1 or len(cvf) != 1:
+        raise core.AnalysisBroken("START record: writer / reader / converter not found (%d, %d, %d)" % (len(wr), len(rdm), len(cvf)))
+    wr, rdm, cvf = wr[0], rdm[0], cvf[0]
+    asg_ = [n for n in walk(wr["body"]) if n["k"] in ("Bin", "OpCall") and n.get("op") == "=" and "m_start_date_vect" in show(strip((n.get("c") or n.get("a"))[0]))]
+    ents = []
+    if len(asg_) == 1:
+        rhs_ = strip((asg_[0].get("c") or asg_[0].get("a"))[1])
+        while rhs_.get("k") in ("Ctor", "Temp", "Bind", "Cast") and len(rhs_.get("a") or rhs_.get("c") or []) == 1:
+            rhs_ = strip((rhs_.get("a") or rhs_.get("c"))[0])
+        ents = [re.sub(r"^\w+\.", "ts.", show(strip(x))) for x in (rhs_.get("c") or rhs_.get("a") or [])]
+    chk.instance(r_sv, "writer", sample=dict(entries=ents))
+    if ents != ["ts.day()", "ts.month()", "ts.year()", "ts.hour()", "ts.minutes()", "ts.seconds()", "0"]:
+        chk.violation(r_sv, "writer", "ExtSmryOutput fills START with %s; the ESMRY record is (day, month, year, hour, minute, second, 0): with another count the reader takes no time of day at all" % ents, wr["file"], asg_[0]["l"] if asg_ else wr["l"])
+    dn = rdm["params"][0]["n"]
+    ifs_ = [n for n in stmt_list(rdm["body"]) if n["k"] == "If" and re.fullmatch(r"\(%s\.size\(\) == 7\)" % dn, show(strip(n["cond"])))]
+    got_r = {}
+    if len(ifs_) == 1:
+        env_ = {}
+        for st in stmt_list(ifs_[0]["then"]):
+            if st["k"] == "Decl":
+                for v in st["vars"]:
+                    env_[v["n"]] = show(strip(v["init"])) if isinstance(v.get("init"), dict) else "?"
+            elif st["k"] == "Bin" and st.get("asg") and st["op"] == "=":
+                t_ = show(strip(st["c"][1]))
+                for k_, v_ in env_.items():
+                    t_ = re.sub(r"\b%s\b" % re.escape(k_), v_, t_)
+                got_r[show(strip(st["c"][0]))] = t_
+    chk.instance(r_sv, "reader", sample=dict(seven_entry_branch=got_r))
+    if got_r != {"hour": "%s[3]" % dn, "minute": "%s[4]" % dn, "second": "%s[5]" % dn}:
+        chk.violation(r_sv, "reader", "ExtESmry make_date, seven-entry START: %s; required hour = [3], minute = [4], second = [5] as stored (the writers store seconds, not microseconds)" % (got_r or "no `size() == 7` branch"), rdm["file"], rdm["l"])
+    ctxt = " ".join(show(x) for x in walk(cvf["body"]) if x["k"] in ("Decl", "Bin", "MCall") and "start_date_vect" in show(x) and x["k"] != "Block")
+    okc = all(t_ in ctxt for t_ in ("(start_date_vect[5] / 1000000)", "start_date_vect.push_back(millisec)", "(start_date_vect[5] = sec)"))
+    chk.instance(r_sv, "converter", sample=dict(ok=okc))
+    if not okc:
+        chk.violation(r_sv, "converter", "ESmry::make_esmry_file no longer turns the SMSPEC start record (microseconds in entry 5) into (.., second, millisecond): %s" % ctxt[:300], cvf["file"], cvf["l"])
+
     # ---- C10.create: when the writer opens a new summary stream
     r_cr = chk.rule("C10.create", "SummaryImplementation::createSmryStreamIfNecessary(report_step) creates (and thereby truncates) the stream exactly when there is none yet, or output is not unified and the last creation was for a STRICTLY earlier report step (decision table over: stream present, unified, prevCreate < report_step); the creating block opens the file of that report_step and records it as the last creation.  With `<=` every further ministep of a report step re-creates the separate file and the earlier ministeps of that step are lost", floor=2)
     from verif import dtable
